@@ -575,6 +575,13 @@ func c08Rdns(t *testing.T, rep *hx.Report, rng *hx.RNG, n int) {
 		for k := 0; k < nips; k++ {
 			ips = append(ips, net.IPv4(10, byte(i), byte(k), byte(rng.Range(1, 254))))
 		}
+		// the same address several times in one call (the destination and the routers shared by the runs
+		// of one request): the look-ups of one address must not queue behind each other
+		if i%4 < 2 {
+			for k := rng.Range(1, 6); k > 0; k-- {
+				ips = append(ips, ips[rng.Intn(len(ips))])
+			}
+		}
 		blockAll := i%2 == 0
 		var elapsed time.Duration
 		var calls int
@@ -618,10 +625,11 @@ func c08Rdns(t *testing.T, rep *hx.Report, rng *hx.RNG, n int) {
 			})
 		})
 		sample := map[string]any{"stream": "rdns", "addresses": nips, "resolver": map[bool]string{true: "blocks until its context is done", false: "answers after 1 ms .. 20 s, honours its context"}[blockAll],
-			"lookups": calls, "elapsed_virtual": elapsed.String(), "bound": "5s"}
+			"lookups": calls, "elapsed_virtual": elapsed.String(), "bound": "5s", "addresses_with_repeats": len(ips)}
 		rep.Case("rdns", fmt.Sprint(i, nips, blockAll), true, sample)
 		rep.Hit("rdns:" + map[bool]string{true: "blocking", false: "slow"}[blockAll])
-		if elapsed > 5*time.Second || calls != nips || (blockAll && elapsed != 5*time.Second) {
+		rep.Hit(fmt.Sprintf("rdns:repeated-addresses=%v", len(ips) > nips))
+		if elapsed > 5*time.Second || calls < nips || calls > len(ips) || (blockAll && elapsed != 5*time.Second) {
 			rep.Violate(hx.Violation{Kind: "spec", What: fmt.Sprintf("GetReverseDnsForIPs over %d addresses returned after %s with %d look-ups (bound 5 s)", nips, elapsed, calls),
 				Sig: map[string]string{"site": "rdns", "behaviour": "stall"}, Replay: sample})
 		}
